@@ -97,5 +97,55 @@ CLAIMS = {
   note="Histories only (no concurrent RPCs); bolt commits assumed atomic; no foreign kernel mounts; no requests after Close; gRPC transport and client.go not exercised; "
        "'restoration failed' is read as recorded-but-unserved when the last Init reported an error. Trusted: TLC, the projection in harness/fusemanager.",
   technique="TLA+ spec + TLC exhaustive check with negative controls; edge-cover replay of the TLC state graphs into Go; TLC trace validation + property monitor of the recorded histories"),
+ "C16": dict(
+  text="Store.tla models the additional-layer store's LayerManager with one action per call (getLayer incl. memoised resolution of all layers of the image and caching by the "
+       "actual TOC digest, use, release with the drop-at-zero bookkeeping) and the fs.go handlers (layernode.Lookup diff|blob|info, Create 'use', refnode.Rmdir) as thin wrappers, "
+       "registry failures as action arguments. TLC checks CountNonNegative, NeverDoneWhileUsed, HandlesMatchLayers, UnknownDigestFails, LookupSucceedsIffTocInImage, "
+       "LastReleaseDropsBookkeeping, NextLookupResolvesAgain exhaustively with 5 negative controls (each one statement of release/resolve switched off). Binding: every edge of four "
+       "generation graphs is executed on a real LayerManager (real layer.Resolver over an in-memory remote.Handler, pre-seeded refPool) and through the go-fuse raw bridge into the "
+       "rootnode/refnode/layernode handlers; racing lookups on one image run under -race; every recorded call/result/projection (the three maps read under r.mu, Done counts) is "
+       "validated by TLC against the spec and the formulas are evaluated by the monitor. Found and fixed: release deleting from the wrong map (c08d15a); data race on layer.r (6ec7362).",
+  design_ref="DESIGN.md 3 (C16), 2.4, 2.5, 7 item 3",
+  note="Calls are atomic in the spec (interleavings inside calls only in the racing-lookup runs, decided by outcome/quiescent-state checks); loadRef/network, TTLs and time-outs "
+       "not modelled; remembered registry errors stay until the image's last release and never-used sibling layers stay cached after it (by design of the code; not claimed). "
+       "Two images only in thorough and race runs. Trusted: TLC, the projection in harness/store.",
+  technique="TLA+ spec + TLC exhaustive check with negative controls; edge-cover replay of the TLC state graphs into Go (manager and FUSE-handler level); TLC trace validation + property monitor; racing lookups under -race"),
+ "C08": dict(
+  text="Snapshotter.tla models snapshot/snapshot.go for one caller with one action per observable step between durable effects (createSnapshot MkTemp/Rename/Commit/Fail, Prepare's backend "
+       "Mount ok|fail and internal commit ok|AlreadyExists, fallback, availability check over the parent chain with the failing set as argument, View, Commit, Remove txn + orphan scan, "
+       "cleanupSnapshotDirectory Unmount-then-RemoveAll with EBUSY semantics, Cleanup, Close, Update, Walk/Stat). TLC checks PrepareTargetOutcome, NoMountsIfRemoteUnavailable, "
+       "LowerDirsNearestFirst, UnmountOnlyAfterRemovedOrClosing, UnmountBeforeRmdir/ReclaimedDirIsGone, AfterCleanupDirsAreLive, AckedStayUntilRemoved, LabelsStable exhaustively (as action "
+       "properties on every transition) with 5 negative controls. Binding: walks over every edge of the generation graphs plus simulated deeper behaviours are replayed on a real "
+       "snapshot.NewSnapshotter with a recording backend that mounts a real tmpfs (EBUSY on deletion, kernel table checkable); every hook/backend event is recorded with the projected bolt "
+       "metadata, snapshots/ directory, backend table and /proc/self/mountinfo; TLC validates the traces and the monitor evaluates the formulas on the recorded states.",
+  design_ref="DESIGN.md 3 (C08), 2.4, 2.5, 2.8",
+  note="Bounded: <=2 keys, 2 committed names, 3 ids, 3-4 calls, all fault assignments; ONE caller (two-caller interleavings not modelled); key and target names disjoint; Update touches a user "
+       "label only; backend is a tmpfs-mounting fake, not FUSE; -race off in the replay (single caller). Quick replays a ranked subset of walks of the larger graphs (thorough: every edge). "
+       "Trusted: TLC, the projection in harness/snapshot.",
+  technique="TLA+ spec + TLC exhaustive check with negative controls; edge-cover + simulation walks replayed into Go with fault injection; TLC trace validation + property monitor"),
+ "C09": dict(
+  text="The same Snapshotter.tla plus Crash(backend survives?) enabled between any two steps and Restart decomposed into force-unmount of leftovers / walk / mkdir / Mount(ok|fail) with "
+       "allow_invalid_mounts_on_restart and no-restore. TLC checks RestartSucceedsOrPrescribed, RemountedExactly, RestoredWithStoredLabels, NoRestoreKeepsMounts, RestartPreservesSnapshots, "
+       "OneCleanupRemovesHalfMade, MetaHasDirs with 5 negative controls. Binding: verifhook.CrashPoint markers between the durable effects of snapshot.go; at the n-th marker/backend event "
+       "the walk names, the handler copies the root directory synchronously (= crash image), the old instance is abandoned, leftover kernel mounts are re-created on the copy and "
+       "NewSnapshotter runs on it with a fresh (or surviving) recording backend whose restore-time Mount results come from the walk; Walk/Stat/Mounts/Remove/Cleanup afterwards are recorded; "
+       "TLC trace validation + monitor decide. One known finding (Cleanup on a never-written metadata DB returns NotFound before scanning).",
+  design_ref="DESIGN.md 3 (C09), 2.4, 2.5",
+  note="bolt commit and rename(2) assumed atomic (no torn writes inside them); a crash during restore or Close only with a dying backend; Close followed by a no-restore start not modelled; "
+       "one caller. Trusted: TLC, the projection and crash-image copy in harness/snapshot.",
+  technique="TLA+ spec with Crash/Restart actions + TLC exhaustive check; crash-point replay (root directory copied at the marker, restart on the copy); TLC trace validation + property monitor"),
+ "C13": dict(
+  text="TaskMgr.tla follows task.go step by step: the atomic counter of prioritized tasks, the notify channel replaced under notifyMu (epoch), the delayed-decrement goroutines that "
+       "implement the silence period (sleep / lock-free add / broadcast as separate steps), the semaphore, the re-check under the lock (Decide), the select on done/notify, the retry loop; "
+       "body executions may finish arbitrarily late after cancellation. TLC checks StartOnlyWhenQuiet (action property), Bounded, NoSelfOverlap, NoneRunningAtReturn exhaustively and "
+       "CancelOnPrioritized / EventuallyCompletes under fairness in separate configs, with 6 negative controls (incl. WaitBodyOnCancel = the pinned code). Binding: G - edge covers of the "
+       "generation graphs are replayed through verifhook gates on a real manager (one spec action = the segment between two gates); T - free-running seeded runs under -race with bodies "
+       "reacting late to cancellation, ordered by hook calls; both validated by TLC against the spec and by the monitor. The pinned defect (cancelled body not awaited) was found by the "
+       "check itself and fixed.",
+  design_ref="DESIGN.md 3 (C13), 2.4, 2.5, 7 item 1",
+  note="ctx timeout not modelled; semaphore FIFO abstracted to any waiter; the wait loop's lock-free reads are not compared with the model; walks behind two-armed selects may be "
+       "abandoned after 5 retries (exhaustive reported false); liveness on the implementation side is bounded-wait only (30 s return, 5 s cancel); callers in fs/layer, fs, store not exercised. "
+       "Trusted: TLC, the gate scheduler and projection in harness/task.",
+  technique="TLA+ spec + TLC exhaustive safety and fair liveness checks with negative controls; gated edge-cover replay into Go; TLC trace validation + property monitor of gated and free-running -race traces"),
 }
 NOT_APPLICABLE = {}
